@@ -73,6 +73,30 @@ def live_tables(yaml):
     return out, extra_text
 
 
+def customise(yaml):
+    """An application that customises the UNSAFE loader only: a YAMLObject subclass, a constructor and a multi-constructor
+    registered on UnsafeLoader.  Their tags join the vocabulary; the statements demand that the confined classes still
+    reject (Safe) or ignore (Base) them and never run the registered code."""
+    if CANARY_DIR not in sys.path:
+        sys.path.insert(1, CANARY_DIR)
+    import verif_canary
+
+    class VerifYObj(yaml.YAMLObject):
+        yaml_tag = '!verif_yobj'
+        yaml_loader = [yaml.UnsafeLoader]
+
+        def __setstate__(self, state):
+            verif_canary.LOG.append(('call', 'VerifYObj.__setstate__'))
+
+        @classmethod
+        def from_yaml(cls, loader, node):
+            verif_canary.LOG.append(('call', 'VerifYObj.from_yaml'))
+            return verif_canary.fire
+    yaml.UnsafeLoader.add_constructor('!verif_uctor', lambda loader, node: verif_canary.fire())
+    yaml.UnsafeLoader.add_multi_constructor('!verif_umulti:', lambda loader, suffix, node: verif_canary.fire())
+    return VerifYObj
+
+
 SPEC_TABLES = {
     'Base': {'exact': [], 'multi': []},
     'Safe': {'exact': CORE12 + ['None'], 'multi': []},
@@ -404,6 +428,7 @@ def tlaset(v):
 def run(v, pid, classes, configs, loader_names):
     """v: Verdict; classes: model classes judged by this property; configs: list of (name, constants dict)"""
     yaml = use_repo()
+    keep = customise(yaml)
     tables, extra_text = live_tables(yaml)
     # initial-state conformance (L): live effective tables against the tables of Construct.tla
     extra = {'Base': set(), 'Safe': set(), 'Full': set(), 'Unsafe': set()}
